@@ -143,5 +143,5 @@ def check(run):
     cached = [k for k, f in fields if 'route' in f['ty']]
     run.check(not cached, 'R2', 'no-cached-route', U, '', 'udp::socket caches a route in %s: datagrams could reach a socket that no longer holds the binding' % cached, 'no route-typed member')
     run.check(len(fwd) == 1 and not (st.cfg.node_block(fwd[0]) in st.cfg.reach_from(st.cfg.node_block(fwd[0]))), 'R4', 'one-packet-per-send', U + '::send_to_impl', st.loc(), 'send_to forwards more than one packet per call', 'exactly one forward_packet, outside loops')
-    run.floor('R7', 20)
-    run.floor('R9', 3)
+    run.floor('R7', 14)
+    run.floor('R9', 2)
